@@ -71,6 +71,14 @@ def apply_mutant(src_root: Path, rel: str, line: int, col: int, tok: str):
     return l.strip(), lines[line - 1].strip()
 
 
+SKIP_TESTS = False
+
+
+def _init(skip):
+    global SKIP_TESTS
+    SKIP_TESTS = skip
+
+
 def run_one(job):
     pids, rel, line, col, tok = job
     pid = ",".join(pids)
@@ -82,13 +90,16 @@ def run_one(job):
         res["before"], res["after"] = before, after
         env = dict(os.environ, PYTHONPATH=str(d / "src"), PYTHONDONTWRITEBYTECODE="1")
         t0 = time.time()
-        try:
+        if SKIP_TESTS:
+            r = subprocess.CompletedProcess([], 0, "", "")
+        else:
+          try:
             r = subprocess.run(
                 ["/venv/bin/python", "-m", "pytest", "tests", "-q", "-x", "-p", "no:cacheprovider", "-n", "4", "--deselect", FLAKY,
                  "--timeout=40"],
                 cwd=REPO, env=env, capture_output=True, text=True, timeout=150,
             )
-        except subprocess.TimeoutExpired:
+          except subprocess.TimeoutExpired:
             res["tests_s"] = round(time.time() - t0, 1)
             res["tests_pass"] = False
             res["killed_by"] = "test-suite hangs (timeout)"
@@ -134,6 +145,8 @@ def main():
     ap.add_argument("--props", default=None)
     ap.add_argument("--out", default=str(ROOT / "mutants" / "sweep_results.json"))
     ap.add_argument("--offset", type=int, default=0, help="shift of the deterministic stride (to draw a different subset)")
+    ap.add_argument("--recheck", default=None, help="earlier results file: re-run only the mutants that survived the test-suite "
+                    "and were not detected then (test-suite run skipped)")
     a = ap.parse_args()
     props = [json.loads(l) for l in (ROOT / "properties.jsonl").read_text().splitlines() if l.strip()]
     want = set(a.props.split(",")) if a.props else None
@@ -155,9 +168,22 @@ def main():
         chosen = cands[a.offset % stride::stride][: a.per_property]
         jobs += [(pids, rel, *c) for c in chosen]
         print(rel.split("/")[-1], pids, "candidates", len(cands), "chosen", len(chosen), flush=True)
+    if a.recheck:
+        global SKIP_TESTS
+        SKIP_TESTS = True
+        old = json.loads(Path(a.recheck).read_text())
+        extra = {"_formula_evaluator.py": ["C19"], "_formula_steps.py": ["C19"], "_battery_manager.py": ["C02", "C01"],
+                 "_fallback_formula_metric_fetcher.py": ["C19"]}
+        jobs = []
+        for r in old:
+            if r.get("tests_pass") and not r.get("detected"):
+                pids = r["property"].split(",")
+                pids += [x for x in extra.get(r["file"].split("/")[-1], []) if x not in pids]
+                jobs.append((pids, r["file"], r["line"], r["col"], r["token"]))
+        print("recheck of", len(jobs), "surviving mutants", flush=True)
     results = []
     t0 = time.time()
-    with mp.Pool(a.jobs) as pool:
+    with mp.Pool(a.jobs, initializer=_init, initargs=(SKIP_TESTS,)) as pool:
         for i, r in enumerate(pool.imap_unordered(run_one, jobs)):
             results.append(r)
             tag = "killed-by-tests" if not r.get("tests_pass") else ("DETECTED" if r.get("detected") else "MISSED")
